@@ -266,6 +266,13 @@ pub async fn run_async(plan: &PlanA, opts: &ExecOpts) -> RunResult {
                 }
                 (rows, sql)
             }
+            Image::Current { rows } => (
+                rows,
+                String::from(
+                    "CREATE TABLE schema_version (key TEXT NOT NULL, version INTEGER NOT NULL, PRIMARY KEY (key)); INSERT INTO schema_version VALUES ('pool', 1);
+                     CREATE TABLE leases (address TEXT NOT NULL, chaddr BLOB, clientid BLOB, start INTEGER NOT NULL, expiry INTEGER NOT NULL, options BLOB, PRIMARY KEY (address));",
+                ),
+            ),
             Image::Newer { version, rows } => (
                 rows,
                 format!(
@@ -297,6 +304,7 @@ pub async fn run_async(plan: &PlanA, opts: &ExecOpts) -> RunResult {
             Image::V0 { version_row: false, .. } => "C18.image_v0_without_version_row",
             Image::V0 { .. } => "C18.image_v0",
             Image::Newer { .. } => "C18.image_newer_schema",
+            Image::Current { .. } => "C18.image_current_schema_reference",
         });
     }
     if let Some(k) = plan.crash_at_total {
@@ -1291,6 +1299,22 @@ fn run_once(plan: &PlanA, opts: &ExecOpts) -> RunResult {
 }
 
 pub fn run_plan(plan: &PlanA, opts: &ExecOpts) -> RunResult {
+    if let (Some(Image::V0 { rows, .. }), None, None) = (&plan.image, plan.crash_at_total, plan.pair_split) {
+        /* upgrade equivalence: the same history on the same rows stored in the current
+         * schema must produce the same replies and the same store */
+        let mut a = run_once(plan, opts);
+        let mut reference = plan.clone();
+        reference.image = Some(Image::Current { rows: rows.clone() });
+        let b = run_once(&reference, opts);
+        a.probe("C18.upgraded_image_compared_with_current_schema");
+        if a.harness_error.is_none() && b.harness_error.is_none() && a.digest != b.digest {
+            let diff = a.digest.iter().zip(b.digest.iter()).find(|(x, y)| x != y).map(|(x, y)| format!("upgraded: [{}]  current schema: [{}]", x, y)).unwrap_or_else(|| format!("{} vs {} entries", a.digest.len(), b.digest.len()));
+            a.violate("C18", "C18.upgraded_store_behaves_differently", format!("after opening the old-schema image the server does not behave as on the same rows in the current schema: {}", diff), 0);
+        }
+        a.events += b.events;
+        a.event_hash = format!("{}+{}", a.event_hash, b.event_hash);
+        return a;
+    }
     let Some(split) = plan.pair_split else {
         return run_once(plan, opts);
     };
